@@ -158,6 +158,14 @@ theorem mamba_complete (hwf : WF G n) :
     rw [List.mem_range]
     exact ⟨hlt a, fun h => (hmem a).mpr (hall a h)⟩
 
+/-- The queue stays ordered by Python's `<=` on `(br, -cnt)` throughout the loop, so `Q.pop(0)` is a smallest and
+`Q.pop()` a largest key (`popQ_extreme`): the binary-search insert is used on sorted input only. -/
+theorem mamba_queue_sorted (hwf : WF G n) (fuel : Nat) : QSorted (mambaLoop G kb fuel (mambaInit G kb n)).q ∧
+    ∀ e q', popQ (mambaLoop G kb fuel (mambaInit G kb n)).pk.cb (mambaLoop G kb fuel (mambaInit G kb n)).q = some (e, q') →
+      ∀ x ∈ q', if (mambaLoop G kb fuel (mambaInit G kb n)).pk.cb = 0 then keyLe e.1 x.1 = true else keyLe x.1 e.1 = true := by
+  have hs := (mambaLoop_inv G kb n hwf fuel _ (mambaInit_inv G kb n)).qsorted
+  exact ⟨hs, fun e q' h => popQ_extreme hs h⟩
+
 /-- The meta blocks are a segmentation of that order: concatenated they give it back, and none is empty. -/
 theorem mamba_segmentation :
     (mambaSched G kb n).flatten = mambaOrder G kb n ∧ ∀ m ∈ mambaSched G kb n, m ≠ [] := by
